@@ -163,6 +163,7 @@ def _closure_packed(b, node, want):
             for st in rets:
                 rv = st["rv"]
                 if want is not None and rv.get("akind") == "adt" and want[0] is not None and rv.get("variant") != want[0]:
+                    found = True        # another variant than the one that is read: this arm of the reader is not fed from here
                     continue
                 ops = rv["ops"]
                 if want is not None and want[1] < len(ops):
@@ -172,18 +173,29 @@ def _closure_packed(b, node, want):
                         continue
                     cur = op_place(o_)
                     nm = None
+                    kcap = None
                     for _ in range(8):
                         if cur is None:
                             break
                         if cur["l"] == 1 and cur["p"]:
-                            k = next((e["f"] for e in cur["p"] if isinstance(e, dict) and "f" in e), None)
-                            nm = capname.get(k)
+                            kcap = next((e["f"] for e in cur["p"] if isinstance(e, dict) and "f" in e), None)
+                            nm = capname.get(kcap)
                             break
                         sd = cb.single_def(cur["l"])
                         if not sd or sd[1] != "assign" or sd[2]["rv"]["k"] not in ("use", "cast"):
                             break
                         cur = op_place(sd[2]["rv"]["op"])
-                    pl_ = b.locals_named(nm) if nm else []
+                    # the very variable captured at this closure's creation (two variables of the function may share a name)
+                    pl_ = []
+                    cops = d_[1].get("ops") or []
+                    if kcap is not None and kcap < len(cops):
+                        cl_ = borrowed_local(b, cops[kcap])
+                        if cl_ is None:
+                            cl_ = op_local(b.resolve_copy(cops[kcap]))
+                        if cl_ is not None:
+                            pl_ = [cl_]
+                    if not pl_:
+                        pl_ = b.locals_named(nm) if nm else []
                     if not pl_:
                         return None
                     out.append(pl_[0])
@@ -212,7 +224,7 @@ def _want_of(pl):
     return (var, fld)
 
 
-def pack_leaves(b, operand, depth=12):
+def pack_leaves(b, operand, depth=12, by_ctor=None):
     """Named locals that a value is *packaged* from: follows only copies, moves, references, tuple / enum / Option
     packing and unpacking (no arithmetic, no calls).  A read of one field of a packed value follows only the operand
     that was packed into that field (of that variant); nested reads are followed level by level.  Used to say 'the
@@ -224,15 +236,22 @@ def pack_leaves(b, operand, depth=12):
     if p is None:
         return out
     w0 = _want_of(p)
-    work.append((p["l"], (w0,) if w0 not in (None, "deep") else ()))
+    # work items: (local, fields still to select, the site where the packaged value was first put together on this way)
+    work.append((p["l"], (w0,) if w0 not in (None, "deep") else (), None))
+
+    def leaf(l_, ctor_):
+        out.add(l_)
+        if by_ctor is not None and ctor_ is not None:
+            by_ctor.setdefault((ctor_.bb, ctor_.idx), (ctor_, set()))[1].add(l_)
     while work:
-        l, want = work.pop()
+        l, want, ctor = work.pop()
         if (l, want) in seen:
             continue
         seen.add((l, want))
         defs = b.defs.get(l, [])
         pure = True
         nxt = []
+        mismatch = False
         for site, kind, node in defs:
             if kind == "call":
                 w = want
@@ -242,7 +261,9 @@ def pack_leaves(b, operand, depth=12):
                 if via is None:
                     pure = False
                 else:
-                    nxt.extend((x, w[1:] if w else ()) for x in via)
+                    if not via:
+                        mismatch = True
+                    nxt.extend((x, w[1:] if w else (), ctor or site) for x in via)
                 continue
             if kind == "part":
                 continue
@@ -259,7 +280,7 @@ def pack_leaves(b, operand, depth=12):
                         if w == "deep":
                             pure = False
                         else:
-                            nxt.append((q["l"], ((w,) + want) if w is not None else want))
+                            nxt.append((q["l"], ((w,) + want) if w is not None else want, ctor))
                 # constants (None / 0 initialisers) are neutral
             elif rv["k"] == "agg" and rv.get("akind") in ("tuple", "adt"):
                 ops = rv["ops"]
@@ -267,6 +288,7 @@ def pack_leaves(b, operand, depth=12):
                 if want:
                     wv, wf = want[0]
                     if rv.get("akind") == "adt" and wv is not None and rv.get("variant") != wv:
+                        mismatch = True
                         continue        # another variant than the one that is read
                     if wf < len(ops) and (rv.get("akind") == "tuple" or wv is None or rv.get("variant") == wv):
                         ops = [ops[wf]]
@@ -274,14 +296,16 @@ def pack_leaves(b, operand, depth=12):
                 for o in ops:
                     q = op_place(o)
                     if q is not None:
-                        nxt.append((q["l"], rest))
+                        nxt.append((q["l"], rest, ctor or (site if rv.get("akind") == "adt" and not str(rv.get("name", "")).startswith("std::option::Option") else None)))
             else:
                 pure = False
+        if pure and not nxt and mismatch:
+            continue        # only other variants are ever packed here: the read of this variant's field is not fed on this way
         if b.local_name(l) and (not pure or not nxt):
-            out.add(l)
+            leaf(l, ctor)
             continue
         if not pure and not b.local_name(l):
-            out.add(l)
+            leaf(l, ctor)
             continue
         work.extend(nxt)
     return out
@@ -487,13 +511,19 @@ def check_persisted_equals_cursor(ctx, facts):
             if (P.bb, P.idx) in seen_p:
                 continue
             seen_p.add((P.bb, P.idx))
-            packed = pack_leaves(b, P.node["rv"]["ops"][-1])
+            by_ctor = {}
+            packed = pack_leaves(b, P.node["rv"]["ops"][-1], by_ctor=by_ctor)
             packed_sym = show(strip_refs(expr(b, P.node["rv"]["ops"][-1])), 10)
             if not packed:
                 continue   # a constant offset (provisional positions) says nothing about a commit
+            # the position may have been put together earlier than where it is unpacked for the setter (an enum built at
+            # the commit, encoded by a helper after the lock was dropped): the stores are judged where it was built
+            at = P
+            if len(by_ctor) == 1 and set().union(*[v[1] for v in by_ctor.values()]) == packed:
+                at = next(iter(by_ctor.values()))[0]
             assoc = None
             for fld, sts in stores.items():
-                rs = reaching_stores(b, [x for x, _ in sts], P)
+                rs = reaching_stores(b, [x for x, _ in sts], at)
                 vals = []
                 for r in rs:
                     callee = next(c for x, c in sts if x is r)
@@ -577,9 +607,45 @@ def check_no_tail_regress(ctx, facts):
             else:
                 bad.append((site.bb, rv["k"]))
         return bad
+    seen_ctor = set()
     for c in b.calls(index_setters(ctx, facts)[0]):
         idx_e = strip_refs(expr(b, c.node["args"][2]))
         if idx_e[0] != "BitOr":
+            # the position may reach the setter packaged: an enum value (`Tail { block_id, offset }`) that a helper encodes as
+            # (block_id | TAIL_FLAG, offset).  Judge the offset the enum was built with, where it was built
+            for P in pack_sites(b, c.node["args"][3]):
+                ops = P.node["rv"]["ops"]
+                l0 = op_local(ops[0]) if ops[0].get("k") != "const" else None
+                sd = b.single_def(l0) if l0 is not None else None
+                if not (sd and sd[1] == "assign" and sd[2]["rv"]["k"] == "bin" and str(sd[2]["rv"].get("op")) == "BitOr"):
+                    continue
+                a_, b_ = sd[2]["rv"]["a"], sd[2]["rv"]["b"]
+                if const_of(b, b_) == TAIL:
+                    xop = a_
+                elif const_of(b, a_) == TAIL:
+                    xop = b_
+                else:
+                    continue
+                by_ctor = {}
+                pack_leaves(b, xop, by_ctor=by_ctor)
+                for (cbb, cidx), (csite, _lv) in by_ctor.items():
+                    if (cbb, cidx) in seen_ctor:
+                        continue
+                    rvc = csite.node["rv"] if csite.idx != "term" and csite.node.get("rv") else None
+                    if not (rvc and rvc["k"] == "agg" and rvc.get("akind") == "adt" and len(rvc["ops"]) == 2):
+                        continue
+                    seen_ctor.add((cbb, cidx))
+                    bshow = show(strip_refs(expr(b, rvc["ops"][0])), 8)
+                    if not bshow.endswith(".id"):
+                        continue        # a commit (the block id was remembered earlier), judged by C09.1d
+                    n += 1
+                    bad = judge(rvc["ops"][1], cbb, bshow)
+                    if bad:
+                        ctx.violate("C09.1e", F, "tail-position-persisted-behind-progress", b.relfile, csite.line,
+                                    "read_next persists (active block | TAIL_FLAG, %s) without regard to the tail offset this reader has already reached in that block: an empty poll, or a crash "
+                                    "before the read that follows, leaves the durable position at the start of the block and a StrictlyAtOnce consumer gets the whole tail block again" % bad[0][1])
+                    else:
+                        ctx.ok("C09.1e", F, "provisional tail persist carries the in-memory tail offset (0 only when the reader was not in this block)", b.relfile, csite.line)
             continue
         sides = [strip_refs(idx_e[1]), strip_refs(idx_e[2])]
         flag = [x for x in sides if x[0] == "c" and x[1] == TAIL]
